@@ -1,0 +1,51 @@
+// SPDX-FileCopyrightText: (C) 2024 Intel Corporation
+// SPDX-License-Identifier: Apache 2.0
+
+//go:build verif
+
+package fdo
+
+import (
+	"reflect"
+
+	"github.com/fido-device-onboard/go-fdo/cbor"
+	"github.com/fido-device-onboard/go-fdo/cose"
+	"github.com/fido-device-onboard/go-fdo/protocol"
+)
+
+// VerifWireTypes lists the Go types of every message body and signed or
+// stored structure of this package, for the verification harness.
+func VerifWireTypes() map[string]reflect.Type {
+	t := func(v any) reflect.Type { return reflect.TypeOf(v) }
+	return map[string]reflect.Type{
+		"di.SetCredentials":          t(setCredentialsMsg{}),
+		"to0.HelloAck":               t(to0Ack{}),
+		"to0.To0d":                   t(to0d{}),
+		"to0.OwnerSign":              t(ownerSign{}),
+		"to0.AcceptOwner":            t(to0AcceptOwner{}),
+		"to1.HelloRV":                t(helloRV{}),
+		"to1.HelloRVAck":             t(rvAck{}),
+		"to1.ProveToRV":              t(cose.Sign1Tag[eatoken, []byte]{}),
+		"to1.RVRedirect":             t(cose.Sign1Tag[protocol.To1d, []byte]{}),
+		"to2.HelloDevice":            t(helloDeviceMsg{}),
+		"to2.ProveOVHdr":             t(cose.Sign1Tag[ovhProof, []byte]{}),
+		"to2.ovhProof":               t(ovhProof{}),
+		"to2.OVNextEntry":            t(ovEntry{}),
+		"to2.SetupDevice":            t(cose.Sign1Tag[deviceSetup, []byte]{}),
+		"to2.deviceSetup":            t(deviceSetup{}),
+		"to2.DeviceServiceInfoReady": t(deviceServiceInfoReady{}),
+		"to2.OwnerServiceInfoReady":  t(ownerServiceInfoReady{}),
+		"to2.DeviceServiceInfo":      t(deviceServiceInfo{}),
+		"to2.OwnerServiceInfo":       t(ownerServiceInfo{}),
+		"to2.Done":                   t(doneMsg{}),
+		"to2.Done2":                  t(done2Msg{}),
+		"sigInfo":                    t(sigInfo{}),
+		"eatoken":                    t(eatoken{}),
+		"Voucher":                    t(Voucher{}),
+		"VoucherHeader":              t(VoucherHeader{}),
+		"VoucherHeaderBstr":          t(cbor.Bstr[VoucherHeader]{}),
+		"VoucherEntry":               t(cose.Sign1Tag[VoucherEntryPayload, []byte]{}),
+		"VoucherEntryPayload":        t(VoucherEntryPayload{}),
+		"DeviceCredential":           t(DeviceCredential{}),
+	}
+}
